@@ -123,7 +123,7 @@ HARNESS_SRCS = {
     "h_persist": ["src/persistent-storage.c", "src/crc-16-arc.c"],
     "h_sx": ["src/sx.c", "src/compat/strlcpy.c"],
     "h_regtable": ["src/registers/core.c"],
-    "h_codec": ["src/byte-buffer.c", "src/variable-length-integer.c", "src/endpoints/core.c", "src/crc-16-arc.c"],
+    "h_codec": ["src/byte-buffer.c", "src/variable-length-integer.c", "src/endpoints/core.c", "src/endpoints/buffer.c", "src/crc-16-arc.c"],
     "h_regp": ["src/register-protocol.c", "src/endpoints/continuable-sink.c", "src/allocator.c", "src/endpoints/core.c",
                "src/endpoints/buffer.c", "src/endpoints/trivial.c", "src/rfc1055.c", "src/length-prefix.c",
                "src/variable-length-integer.c", "src/byte-buffer.c", "src/crc-16-arc.c"],
